@@ -97,12 +97,18 @@ func init() {
 					case "ev_split":
 						cl["email_verified"] = false
 						delete(cl, "groups")
+					case "email_prof_unv":
+						delete(cl, "email")
+						delete(cl, "email_verified")
 					}
 				}
 				w.idp.mu.Lock()
 				w.idp.userinfoClaims = map[string]interface{}{"email": "profile-alice@example.com", "groups": []string{"pg1"}, "preferred_username": "prof-alice", "email_verified": true}
 				if claimsVar == "no_groups" {
 					w.idp.userinfoClaims["groups"] = nil
+				}
+				if claimsVar == "email_prof_unv" {
+					w.idp.userinfoClaims["email_verified"] = false // the profile itself marks the address it supplies as unverified
 				}
 				w.idp.signAlg = "RS256"
 				baseMut := func(k string, cl map[string]interface{}) {
